@@ -93,6 +93,12 @@ def seq_of(comp, dump):
         return ["unparsable"]
 
 
+def truncated(out):
+    """the driver writes the answer of a case as one whole line; an answer with a malformed token can only come from a
+    process that was cut off outside the driver's control (never a statement about libyang): not judged"""
+    return not is_crash(out) and any(len(t.split("/")) != 3 for t in out.split(" "))
+
+
 def judge_tokens(comp, ops, out):
     """(tag, detail) when the implementation's own output shows a violated invariant"""
     if is_crash(out):
@@ -114,6 +120,8 @@ class _Base(Comp):
     def witness(self, line, model_out, impl_out):
         f = line.split("\t")
         ops = f[-1].split(" ")
+        if truncated(impl_out) or truncated(model_out):
+            return None
         j = judge_tokens(f[0], ops, impl_out)
         if j:
             return j
@@ -560,6 +568,8 @@ class SortedOrder:
         ops = f[-1].split(" ")
         place = f[2]
         top, after = place[0] == "t", place[1] == "2"
+        if truncated(out):
+            return None
         j = judge_tokens("lyds", ops, out)
         if j:
             return j
@@ -796,6 +806,8 @@ class SiblingOrder:
         ops = f[-1].split(" ")
         if is_crash(out):
             return ("sibling-crash", out[:80])
+        if truncated(out):
+            return None
         toks = out.split(" ")
         if len(toks) != len(ops):
             return ("sibling-result", "%d answers for %d ops" % (len(toks), len(ops)))
